@@ -949,6 +949,15 @@ func ruleC13_3(c *Ctx, r *Rep) {
 			// one setter fed by a local that is `now` by default and the row's published_at on the complex path
 			cands = phi.Edges
 		}
+		// the lookup may live in a helper that hands its findings back in a struct (`st := computeAckState(…);
+		// SetAckedMessagesBefore(st.before)`): the path-sensitive provenance of the argument names its leaves
+		if mu.Call != nil {
+			if alts, okP := provenanceThroughClosures(c, mu.Call.Parent(), mu.Call, mu.Arg, 0); okP {
+				for _, al := range alts {
+					cands = append(cands, al.leaf)
+				}
+			}
+		}
 		for _, a := range cands {
 			if dependsOnCall(a, oldest.Terms[0].Call) && sources(a)["field:PublishedAt"] {
 				// the row's published_at ITSELF (a rounded / shifted copy moves the boundary across the very message it
